@@ -3,6 +3,7 @@
 package main
 
 import (
+	"bytes"
 	"crypto/rand"
 	"crypto/sha256"
 	"fmt"
@@ -37,6 +38,19 @@ type env struct {
 	streams   [6]*refchip.DetRand
 	seqThread int // logical thread id used while running a sequential reference order
 	exch      [6]int
+	// refMode is set while the sequential reference is computed. The reference semantics of a setter is
+	// call-by-value: the configuration is what the argument held WHEN the setter was called. In explored and
+	// free-running executions the caller recycles its argument buffer right after the setter returned
+	// (recycle); in reference mode it does not, so an object that retains the caller's slice instead of
+	// copying it produces outcomes outside the reference (and a data race in the -race pass).
+	refMode bool
+}
+
+// recycle overwrites the caller's own argument buffer after a setter returned (not in reference mode).
+func (e *env) recycle(buf, with []byte) {
+	if !e.refMode {
+		copy(buf, with)
+	}
 }
 
 // threadRand replaces crypto/rand.Reader: one deterministic stream per logical thread, recreated for
@@ -104,7 +118,7 @@ func newEnv(deterministicRand bool) (*env, error) {
 	if e.evid, err = d.ToCbor(); err != nil {
 		return nil, err
 	}
-	w.Prewarm(e.chalA)
+	w.Prewarm(e.chalA, make([]byte, 8))
 	e.resetExecution()
 	return e, nil
 }
@@ -257,7 +271,9 @@ func scenarios() []*scenario {
 					}}},
 					{{"SkipImages", func() string { r.SkipImages(); return "done" }}},
 					{{"WithAAChallenge", func() string {
-						rr, err := r.WithAAChallenge(e.chalA)
+						buf := bytes.Clone(e.chalA)
+						rr, err := r.WithAAChallenge(buf)
+						e.recycle(buf, make([]byte, 8)) // the caller reuses its buffer
 						return fmt.Sprintf("self=%v err=%v", rr == r, err)
 					}}},
 				}, final: func() string { return fmt.Sprintf("%s status=%d/%d", chip.Observe(), st.n, st.dgs) }}
@@ -269,7 +285,9 @@ func scenarios() []*scenario {
 				return &instance{threads: [][]call{
 					{{"Verify#1", ver}},
 					{{"WithAAChallenge", func() string {
-						vv, err := v.WithAAChallenge(e.chalV)
+						buf := bytes.Clone(e.chalV)
+						vv, err := v.WithAAChallenge(buf)
+						e.recycle(buf, e.evNonce) // the caller reuses its buffer (now holding the value that WOULD match)
 						return fmt.Sprintf("self=%v err=%v", vv == v, err)
 					}}},
 					{{"Verify#2", ver}},
